@@ -3,7 +3,8 @@
 (* C06 over EXPRESSIONS: every one-line program `10 PRINT e`, `10 X = e`,  *)
 (* `10 A$ = e` where e ranges over the expression trees of ExprProps (all  *)
 (* operator pairs in both groupings, unary placements, ABS / INT, leaves   *)
-(* of both kinds including chained comparisons with string operands).      *)
+(* of both kinds including chained comparisons with string operands), and  *)
+(* over every position of the language's comma-separated lists ("lists").  *)
 (* The same two implications as MC_C06, and the same row format.           *)
 (***************************************************************************)
 EXTENDS ExprProps, Analyzer
@@ -22,13 +23,44 @@ TreesOf(shape) ==
 
 Heads == { <<Tk("print")>>, <<TkS("symbol", B("X")), Tk("equals")>>, <<TkS("symbol", B("A$")), Tk("equals")>> }
 
-VARIABLES tree, head
-vars == <<tree, head>>
-Init == head \in Heads /\ \E s \in Shapes : tree \in TreesOf(s)
+(***************************************************************************)
+(* Lists: every position of every comma-separated list the language has -- *)
+(* subscripts of an array reference (read, assigned, DIMensioned), the     *)
+(* arguments of a user function, the items of PRINT / READ / INPUT / DIM / *)
+(* NEXT -- filled with operands of both kinds.                             *)
+(***************************************************************************)
+T4 == {t[2] : t \in L4}
+Sym(n) == TkS("symbol", B(n))
+Args(k) == [1..k -> T4]
+RECURSIVE Commas(_)
+Commas(as) == IF Len(as) = 0 THEN <<>> ELSE IF Len(as) = 1 THEN <<as[1]>> ELSE <<as[1], Tk("comma")>> \o Commas(Tail(as))
+Ix(name, as) == <<Sym(name), Tk("leftparen")>> \o Commas(as) \o <<Tk("rightparen")>>
+Args123 == Args(1) \cup Args(2) \cup Args(3)
+DefF2 == <<Tk("def"), Sym("F"), Tk("leftparen"), Sym("A"), Tk("comma"), Sym("B"), Tk("rightparen"), Tk("equals"), Sym("A"), Tk("plus"), Sym("B"), Tk("colon")>>
+DefG2 == <<Tk("def"), Sym("G"), Tk("leftparen"), Sym("A"), Tk("comma"), Sym("B$"), Tk("rightparen"), Tk("equals"), Sym("A"), Tk("colon")>>
+DataHead == <<TkD(<<ItemN(NInt(1)), ItemN(NInt(2)), ItemS(B("x"))>>), Tk("colon")>>
+ListProgs ==
+    {h \o Ix("Q", as) : h \in Heads, as \in Args123}                                           \* array element read
+    \cup {Ix("Q", as) \o <<Tk("equals"), TkN(NInt(0))>> : as \in Args123}                       \* ... assigned
+    \cup {Ix("Q$", as) \o <<Tk("equals"), TkS("stringliteral", B("A"))>> : as \in Args(2)}
+    \cup {<<Tk("dim")>> \o Ix("Q", as) : as \in Args123}                                        \* ... dimensioned
+    \cup {<<Tk("dim")>> \o Ix("R", <<TkN(NInt(2))>>) \o <<Tk("comma")>> \o Ix("Q", as) : as \in Args(1) \cup Args(2)}
+    \cup {DefF2 \o <<Tk("print")>> \o Ix("F", as) : as \in Args123}                              \* user function arguments
+    \cup {DefG2 \o <<Tk("print")>> \o Ix("G", as) : as \in Args(2)}
+    \cup {<<Tk("print")>> \o Ix("Q", <<a>>) \o <<sep>> \o Ix("Q", as) : a \in T4, sep \in {Tk("comma"), Tk("semicolon")}, as \in Args(1) \cup Args(2)}
+    \cup {DataHead \o <<Tk("read")>> \o Commas(as) : as \in [1..2 -> {Sym("X"), Sym("S$"), TkN(NInt(0)), TkS("stringliteral", B("A"))}]}
+    \cup {DataHead \o <<Tk("read"), Sym("X"), Tk("comma")>> \o Ix("Q", as) : as \in Args(1) \cup Args(2)}
+    \cup {<<Tk("for"), Sym("I"), Tk("equals"), a, Tk("to"), b, Tk("step"), c, Tk("colon"), Tk("next"), Sym("I")>> : a \in T4, b \in T4, c \in T4}
+    \cup {<<Tk("if"), a, Tk("then"), Tk("print"), b, Tk("else"), Tk("print")>> \o Ix("Q", as) : a \in T4, b \in T4, as \in Args(2)}
+
+ProgsOf(shape) == IF shape = "lists" THEN ListProgs ELSE {h \o Render(t, FALSE) : h \in Heads, t \in TreesOf(shape)}
+
+VARIABLES toks
+vars == <<toks>>
+Init == \E s \in Shapes : toks \in ProgsOf(s)
 Next == UNCHANGED vars
 
 K10 == <<49, 48>>
-toks == head \o Render(tree, FALSE)
 Prog == SetLine(Fresh, K10, toks)
 
 RECURSIVE RunOn(_, _)
@@ -41,12 +73,16 @@ RunResult == RunOn(Step(Prog, CSubmit(B("RUN"))), 50)
 AErrs == ProgramErrors(Prog)
 IsBad(kind) == kind \in {"type_mismatch", "undefined_statement"} \/ (Len(kind) >= 6 /\ SubSeq(kind, 1, 6) = "syntax")
 
+\* the converse half is promised for straight-line lines only
+NonStraight == {"if", "then", "else", "goto", "gosub", "return", "next", "end", "stop", "input", "def"}
+Straight == \A i \in 1..Len(toks) : toks[i].k \notin NonStraight
+
 C06 == LET run == RunResult
        IN  run.kind = "unknown" \/
-           (/\ (AErrs # <<>>) => ~run.ok
+           (/\ (AErrs # <<>> /\ Straight) => ~run.ok
             /\ (AErrs = <<>>) => (run.ok \/ ~IsBad(run.kind)))
 
 ListingBody0 == LET ll == ListLine(K10, toks) IN SubSeq(ll.s, 1, Len(ll.s) - 1)
-Row == [text |-> ListingBody0, aerr |-> IF AErrs = <<>> THEN "" ELSE AErrs[1].err, run_ok |-> RunResult.ok, run_kind |-> RunResult.kind]
+Row == [text |-> ListingBody0, aerr |-> IF AErrs = <<>> THEN "" ELSE AErrs[1].err, run_ok |-> RunResult.ok, run_kind |-> RunResult.kind, straight |-> Straight]
 EmitRow == EmitRows => PrintT(<<"ROW", ToJson(Row)>>)
 =============================================================================
